@@ -46,7 +46,32 @@ CLAIMED["C20"] = (
     "source for all inputs. The transitive-reduction clause is declined.",
     _NOTE, "DESIGN.md section 5, C20")
 
-for _p in ["C01", "C02", "C03", "C05", "C06", "C07", "C10", "C11",
+CLAIMED["C06"] = (
+    "table extraction (printer templates, parser precedence-climbing branches, "
+    "lex table) from the ast + two table-driven grammar models run against each "
+    "other over exhaustively enumerated nestings",
+    "The printer's precedence/forced-parenthesis table and the parser's "
+    "precedence table are extracted from the source on every run (branch and "
+    "helper shapes are recognised or the run is an ANALYSIS-ERROR) and compared "
+    "through generic models on every (parent, position, child) nesting (quick) "
+    "and every 3-level nesting over a reduced alphabet (thorough). Exhaustive "
+    "over the table space, which is what a sampled round-trip test cannot be; "
+    "the models abstract the code, so fidelity rests on the recognisers.",
+    _NOTE, "DESIGN.md section 5, C06")
+
+CLAIMED["C07"] = (
+    "extracted parser table driven through a generic precedence-climbing model "
+    "and compared with Python's own grouping (ast.parse on checker-built "
+    "skeleton strings); lexer-table priority checks; ast path rules for "
+    "whole-input and argument lists; importer operator tables against the "
+    "interpreter's ast operator tables",
+    "All 2-operator skeletons of the shared syntax (quick) and 3-operator "
+    "skeletons (thorough) are enumerated exhaustively; the importer's tables "
+    "are compared entry by entry with the node each Python operator denotes, "
+    "including whether the entry can be called with two operands.",
+    _NOTE, "DESIGN.md section 5, C07")
+
+for _p in ["C01", "C02", "C03", "C05", "C10", "C11",
            "C12", "C13", "C14", "C15", "C16", "C17", "C19"]:
     NOT_APPLICABLE[_p] = ("check under construction in this revision (see "
                           "DESIGN.md for the planned static rule)")
